@@ -12,9 +12,15 @@ Keys are lower-case hex, the empty key is `-`; a pair is `<hexkey>:<value>`.
   navpos <pos>                (hasChild, childNodeID | valuePos, isEndOfNode, suffix of a label)
   get <key> | lget <key> | iter | liter | riter | seek <key> | seeklb <key> | prefix <key>
   siter | sriter | sseek <key> | sprefix <key>     (the iterator stack machine over the vectors)
+  swalk <first|last|seek:<key>> <script of N / P, or ->   (cursor walk: Valid/Key/Value at the start and
+                                                            after every Next / Prev of the script)
   bv <bits> ...               bvbits | bvranklut | bvsellut | rank <i> | select <k> | dist <i>
   bucket <blockSize> | <pair> ... | <pair> ...
   reload | bytes | msize      (byte layout model: marshal / unmarshal round trip, the bytes, MarshalSize)
+  umal <hexbytes> | umalt <m> | umalf <pos> <byte>   (UnmarshalBinary of raw bytes / of the first m bytes of the
+                              current trie's image / of the image with one byte replaced: `ok <fields+digest>` | `rejected`)
+  pinit <pair> ...            (a pooled trie object that holds another dictionary)
+  pload full|t<m>|f<pos>:<byte>   (UnmarshalBinary INTO that object: the image, a truncation, a byte flip)
   blikepat <pattern>          (like dispatch of indexKVStore.FindValuesByLike)
   bget <key> | bvalues | bpairs | bsuggest <key> <limit> | blike <prefix> <pre|suf|has> <sub> | bmerge <blockSize>
 -/
@@ -93,6 +99,7 @@ structure St where
   bv : List Bool := []
   blockSize : Nat := 1
   bucket : Option (List Node) := none
+  obj : Option TrieWire.Wire := none   -- the pooled trie object (GetTrie / PutTrie) and what it holds
 
 def showSeek (r : Bool × List KV) : String :=
   match r.2 with
@@ -113,6 +120,24 @@ def withBucket (st : St) (f : List Node → String) : St × String :=
   match st.bucket with
   | some t => (st, f t)
   | none => (st, "no-bucket")
+
+def showRes : TrieWire.Res TrieWire.Wire → String
+  | .ok w => "ok " ++ TrieWire.showWire w
+  | .err _ => "rejected"
+  | .panic => "rejected"
+
+/-- the serialised image of the current trie, or a damaged variant of it -/
+def imageVariant (bytes : List Nat) (v : String) : Option (List Nat) :=
+  if v = "full" then some bytes
+  else if v.startsWith "t" then (String.ofList (v.toList.drop 1)).toNat?.map (fun m => bytes.take m)
+  else if v.startsWith "f" then
+    match (String.ofList (v.toList.drop 1)).splitOn ":" with
+    | [p, x] =>
+      match p.toNat?, x.toNat? with
+      | some pos, some val => if pos < bytes.length && val < 256 then some (bytes.set pos val) else none
+      | _, _ => none
+    | _ => none
+  else none
 
 def lastLabelPos (f : Flat) (nodeID : Nat) : Nat :=
   -- trie.lastLabelPos
@@ -175,6 +200,50 @@ def step (st : St) (ws : List String) : St × String :=
       else if TrieWire.unmarshal bytes == some w then "ok" else "unmarshal-mismatch")
   | ["bytes"] => withFlat st (fun f => showKey (TrieWire.marshal (TrieReuse.toWireReuse st.prev f)))
   | ["msize"] => withFlat st (fun f => toString (TrieWire.marshalSize (TrieWire.toWire f)))
+  | ["umal", hex] =>
+    match parseKey hex with
+    | none => (st, "bad-op")
+    | some bytes => (st, showRes (TrieWire.unmarshalR bytes))
+  | ["umalt", m] =>
+    match m.toNat? with
+    | none => (st, "bad-op")
+    | some m => withFlat st (fun f =>
+        showRes (TrieWire.unmarshalR ((TrieWire.marshal (TrieReuse.toWireReuse st.prev f)).take m)))
+  | ["umalf", p, x] =>
+    match st.flat with
+    | none => (st, "no-trie")
+    | some f =>
+      match imageVariant (TrieWire.marshal (TrieReuse.toWireReuse st.prev f)) ("f" ++ p ++ ":" ++ x) with
+      | none => (st, "bad-op")
+      | some bytes => (st, showRes (TrieWire.unmarshalR bytes))
+  | "pinit" :: ps =>
+    match ps.mapM parsePair with
+    | none => (st, "bad-op")
+    | some kvs =>
+      match build kvs with
+      | none => ({ st with obj := none }, "panic")
+      | some t =>
+        let w := TrieWire.toWire (encode t)
+        -- a fresh object (all fields empty) loads the other dictionary
+        let fresh : TrieWire.Wire :=
+          { totalKeys := 0, height := 0, labels := [], hasChild := ⟨[], 0, []⟩, louds := ⟨[], 0, []⟩,
+            pfx := ⟨⟨[], 0, []⟩, [], []⟩, sfx := ⟨⟨[], 0, []⟩, [], []⟩, values := [] }
+        let r := TrieWire.unmarshalInto fresh (TrieWire.marshal w)
+        match r.2 with
+        | .ok _ => ({ st with obj := some r.1 }, "ok " ++ TrieWire.showWire r.1)
+        | _ => ({ st with obj := none }, "rejected")
+  | ["pload", v] =>
+    match st.flat, st.obj with
+    | none, _ => (st, "no-trie")
+    | _, none => (st, "no-object")
+    | some f, some o =>
+      match imageVariant (TrieWire.marshal (TrieReuse.toWireReuse st.prev f)) v with
+      | none => (st, "bad-op")
+      | some bytes =>
+        let r := TrieWire.unmarshalInto o bytes
+        match r.2 with
+        | .ok _ => ({ st with obj := some r.1 }, "ok " ++ TrieWire.showWire r.1)
+        | _ => ({ st with obj := some r.1 }, "rejected")
   | ["dims"] =>
     withFlat st (fun f => s!"height={f.height} keys={f.values.length} labels={f.labels.length} nodes={f.hasPrefix.length}")
   | ["levels"] =>
@@ -226,6 +295,23 @@ def step (st : St) (ws : List String) : St × String :=
         match r.2 with
         | [] => s!"fp={if r.1 then 1 else 0} invalid"
         | l => s!"fp={if r.1 then 1 else 0} " ++ showPairs l)
+  | ["swalk", start, script] =>
+    let ms? : Option (List LoudsIter.Mv) :=
+      if script = "-" then some [] else
+      script.toList.mapM (fun c => if c = 'N' then some LoudsIter.Mv.next else if c = 'P' then some LoudsIter.Mv.prev else none)
+    let start? : Option (Flat → LoudsIter.It) :=
+      if start = "first" then some LoudsIter.seekToFirst
+      else if start = "last" then some LoudsIter.seekToLast
+      else match start.splitOn ":" with
+        | ["seek", k] => (parseKey k).map (fun key => fun f => (LoudsIter.seek stepLB f key).1)
+        | _ => none
+    match ms?, start? with
+    | some ms, some mk =>
+      withFlat st (fun f =>
+        let it := mk f
+        let showObs : Option KV → String := fun o => match o with | some kv => showPair kv | none => "x"
+        " ".intercalate ((LoudsIter.obs f it :: LoudsIter.walk f it ms).map showObs))
+    | _, _ => (st, "bad-op")
   | ["sprefix", k] =>
     match parseKey k with
     | none => (st, "bad-op")
